@@ -820,17 +820,71 @@ def np_clip(a, a_min=None, a_max=None, out=None, **kw):
     return r
 
 
-def np_meshgrid(*xi, **kw):
-    if all(_conc(x) for x in xi):
-        return list(_delegate('meshgrid', *xi, **kw))
-    raise Unsupported('meshgrid on symbolic cells')
+def _structural(name):
+    """functions that only move cells around: NumPy's own implementation is run on the object arrays"""
+    real = getattr(_np, name)
+
+    def f(*args, **kw):
+        dts = []
+
+        def conv(x):
+            x = _unlazy(x)
+            if isinstance(x, SArr):
+                dts.append(x.ldtype)
+                return _raw(x)
+            if isinstance(x, _nd):
+                dts.append(x.dtype)
+                return x.astype(object)
+            if isinstance(x, (list, tuple)) and any(isinstance(y, (_nd, SVal, list, tuple)) for y in x):
+                return type(x)(conv(y) for y in x) if not has_sym([y for y in x if isinstance(y, SVal)]) \
+                    else conv(np_array(list(x)))
+            return x
+        a2 = [conv(a) for a in args]
+        k2 = {k: conv(v) for k, v in kw.items()}
+        r = real(*a2, **k2)
+        odt = _np.result_type(*[_np.empty(0, d) for d in dts]) if dts and all(d.kind != 'O' for d in dts) else _np.dtype(object)
+
+        def back(y):
+            if isinstance(y, _nd):
+                return SArr(y, odt) if odt.kind != 'O' else _mk(y, object)
+            if isinstance(y, (list, tuple)):
+                return type(y)(back(z) for z in y)
+            return y
+        return back(r)
+    f.__name__ = name
+    return f
+
+
+for _n in ('meshgrid', 'dstack', 'repeat', 'tile', 'roll', 'flip', 'fliplr', 'flipud', 'swapaxes', 'moveaxis',
+           'broadcast_to', 'take', 'rollaxis', 'column_stack', 'array_split', 'split', 'delete', 'insert',
+           'triu', 'tril', 'diagflat', 'rot90'):
+    if hasattr(_np, _n):
+        globals()['np_' + _n] = _structural(_n)
 
 
 def np_bincount(x, weights=None, minlength=0):
     x = _unlazy(x)
+    weights = _unlazy(weights)
     if _conc(x) and _conc(weights):
         return _delegate('bincount', x, weights=weights, minlength=minlength)
-    raise Unsupported('bincount on symbolic cells')
+    xa = _as_sarr(x)
+    if xa.ndim != 1 or xa.ldtype.kind not in 'iub':
+        raise TypeError('bincount: x must be a 1-D array of non-negative ints')
+    cells_ = xa.cells()
+    for c in cells_:
+        if bool(c < 0):
+            raise ValueError("'list' argument must have no negative elements")
+    mx = np_max(xa) + 1 if len(cells_) else 0
+    n = operator.index(ite(mx < minlength, minlength, mx)) if isinstance(mx, SVal) else builtins.max(int(mx), int(minlength))
+    w = _as_sarr(weights).cells() if weights is not None else None
+    odt = _np.dtype(float) if w is not None else _np.dtype(_np.intp)
+    o = _np.empty(n, dtype=object)
+    for k in range(n):
+        acc = coerce(0, odt)
+        for t, c in enumerate(cells_):
+            acc = acc + ite(c == k, coerce(w[t], odt) if w is not None else 1, coerce(0, odt))
+        o[k] = acc
+    return _mk(o, odt)
 
 
 def np_diff(a, n=1, axis=-1, **kw):
